@@ -54,6 +54,8 @@ ASSUMPTIONS = [
     "the incoming view is read as a defaultdict: a missing top-level key and an empty entry "
     "are the same description of 'no incoming edges' (neighbors_in adds such an entry)",
     "rename maps are injective on the labels present; labels are strings, vertices ints/strings",
+    "automaton_multiple is only applied when all labels have the same length (concatenated "
+    "labels of mixed lengths can collide and make the product non-deterministic)",
     "kbmag text: tokens are atomic (no whitespace inside [a..b], rec( or :=), identifiers do "
     "not start with a digit, strings contain no double quote, LF line ends",
     "remove_long_paths(edge_ties=False) is checked against a validity predicate (any "
@@ -449,6 +451,8 @@ class Machine:
     def op_multiple(self, a):
         if not self._start_ok():
             return False
+        if len({len(l) for l in self.m.labels()}) > 1:
+            return False      # concatenations of labels of mixed lengths are ambiguous
         k = 1 + a[0] % 3
         if len(self.m.labels()) ** k > 64:
             k = 1
